@@ -526,6 +526,156 @@ Proof.
   eexists. wit.
 Qed.
 
+(* ------------------------------------------------------------------ reindex_elements (repaired rule) *)
+Lemma lookup_fold lk k acc :
+  fold_left (fun a kv => if fst kv =? k then Some (snd kv) else a) lk acc =
+  match lookup lk k with Some v => Some v | None => acc end.
+Proof.
+  unfold lookup. revert acc. induction lk as [|kv t IH]; intros acc; simpl; [reflexivity|].
+  rewrite IH. rewrite (IH (if fst kv =? k then Some (snd kv) else None)).
+  destruct (fold_left _ t None); [reflexivity|]. destruct (fst kv =? k); reflexivity.
+Qed.
+Lemma lookup_none lk k : haskey lk k = false -> lookup lk k = None.
+Proof.
+  unfold haskey. intros H. apply zin_false in H. induction lk as [|kv t IH]; [reflexivity|].
+  unfold lookup. simpl. rewrite lookup_fold. simpl in H.
+  destruct (fst kv =? k) eqn:E; [apply Z.eqb_eq in E; exfalso; apply H; left; exact E|].
+  rewrite IH; [reflexivity|]. intros X. apply H. right. exact X.
+Qed.
+Lemma remap_nokey lk x : haskey lk x = false -> remap lk x = x.
+Proof. intros H. unfold remap. rewrite (lookup_none lk x H). reflexivity. Qed.
+Lemma mapM_total {A B} (F : A -> result B) (f : A -> B) l : (forall a, F a = Ok (f a)) -> mapM F l = Ok (map f l).
+Proof. intros H. induction l as [|a t IH]; simpl; [reflexivity|]. rewrite H. simpl. rewrite IH. reflexivity. Qed.
+
+Lemma G22_reindex_ctrl n k lk c x :
+  G22_reindex n k lk = true -> In c (ctrl n) -> ctty c = k -> In x (ctidx c) -> remap lk x = x.
+Proof.
+  unfold G22_reindex. rewrite forallb_forall. intros H Hc Hk Hx. specialize (H c Hc).
+  apply negb_true_iff, andb_false_iff in H. destruct H as [H|H].
+  - subst k. rewrite ekind_beq_refl in H. discriminate.
+  - destruct (Z.eq_dec (remap lk x) x) as [E|E]; [exact E|]. exfalso.
+    assert (existsb (moved lk) (ctidx c) = true); [|congruence].
+    apply existsb_exists. exists x. split; [exact Hx|]. unfold moved. apply negb_true_iff, Z.eqb_neq, E.
+Qed.
+
+Lemma inv_step_reindex_elements n k lk n' :
+  G22_reindex n k lk = true -> Inv n -> reindex_elements n (TEl k) lk = Ok n' -> Inv n'.
+Proof.
+  intros G I. unfold reindex_elements, reindex_elements_gen.
+  destruct (keys n (TEl k)) as [|k0 kt] eqn:EK; [intros E; inversion E; subst; exact I|].
+  destruct lk as [|p0 lt] eqn:ELK; [intros E; inversion E; subst; exact I|]. rewrite <- ELK in *. clear ELK p0 lt.
+  rewrite <- EK. clear EK k0 kt.
+  set (old := filter (fun i => haskey lk i) (keys n (TEl k))).
+  set (cond := fun x => if zin x old then remap lk x else x).
+  assert (Hcond : forall x, In x (el_ids n k) -> cond x = remap lk x).
+  { intros x Hx. unfold cond. destruct (zin x old) eqn:Z; [reflexivity|]. apply zin_false in Z.
+    destruct (haskey lk x) eqn:HK; [|symmetry; apply remap_nokey, HK].
+    exfalso. apply Z. unfold old. apply filter_In. split; [exact Hx | exact HK]. }
+  assert (Hold : forall x, zin x old = true -> cond x = remap lk x) by (intros x Hx; unfold cond; rewrite Hx; reflexivity).
+  cbn [reindex_table andb].
+  erewrite (mapM_total _ (fun g => if tname_eqb (gty g) (TEl k) then {| gid := gid g; gty := gty g; gmem := map cond (gmem g) |} else g)).
+  2:{ intros g. destruct (tname_eqb (gty g) (TEl k)); reflexivity. }
+  cbn [bind]. intros E. inversion E; subst n'; clear E.
+  apply Inv_Resolves in I. destruct I as [[Tm Tg] R]. apply Inv_Resolves.
+  match goal with |- Resolves ?m => set (n6 := m) end.
+  assert (Hel : forall k', el n6 k' = if ekind_beq k k' then map (fun r => {| eid := remap lk (eid r); ebus := ebus r; eis := eis r |}) (el n k) else el n k') by reflexivity.
+  assert (Hsw : sw n6 = map (fun s => if tname_eqb (sw_target (swt s)) (TEl k) && zin (sel s) old
+                                      then {| sid := sid s; sbus := sbus s; swt := swt s; sel := remap lk (sel s); sclosed := sclosed s |}
+                                      else s) (sw n)) by reflexivity.
+  assert (Hmeas : meas n6 = map (fun m => if tname_eqb (mty m) (TEl k) && zin (mel m) old
+                                          then {| mid := mid m; mmt := mmt m; mty := mty m; mel := remap lk (mel m); msd := msd m |}
+                                          else m) (meas n)) by reflexivity.
+  assert (Hgrp : grp n6 = map (fun g => if tname_eqb (gty g) (TEl k) then {| gid := gid g; gty := gty g; gmem := map cond (gmem g) |} else g) (grp n)) by reflexivity.
+  set (fixc := fun c => if ekind_beq (cet c) k && zin (cel c) old then {| cid := cid c; cet := cet c; cel := remap lk (cel c) |} else c).
+  assert (Hpc : pcost n6 = map fixc (pcost n)) by reflexivity.
+  assert (Hwc : wcost n6 = map fixc (wcost n)) by reflexivity.
+  assert (Hct : ctrl n6 = ctrl n) by reflexivity. assert (Hrb : rbus n6 = rbus n) by reflexivity.
+  assert (Hres : forall k', res n6 k' = if ekind_beq k k' then map cond (res n k) else res n k') by reflexivity.
+  assert (Kbus : bus_ids n6 = bus_ids n) by reflexivity.
+  clearbody n6.
+  (* new keys *)
+  assert (Kel : forall k' x, In x (el_ids n k') -> In (if ekind_beq k k' then remap lk x else x) (el_ids n6 k')).
+  { intros k' x Hx. unfold el_ids in *. rewrite Hel. destruct (ekind_beq k k') eqn:Ek; [|exact Hx].
+    apply ekind_beq_eq in Ek. subst k'. rewrite map_map. simpl. apply (in_map (fun r => remap lk (eid r))) in Hx || idtac.
+    apply in_map_iff in Hx. destruct Hx as [r [H1 H2]]. apply in_map_iff. exists r. split; [rewrite H1; reflexivity | exact H2]. }
+  assert (Ksid : map sid (sw n6) = map sid (sw n)).
+  { rewrite Hsw, map_map. apply map_ext. intros s. destruct (tname_eqb (sw_target (swt s)) (TEl k) && zin (sel s) old); reflexivity. }
+  (* a reference x to table (TEl k') that the step rewrote to cond x / remap lk x or left alone *)
+  assert (Kref : forall k' x, In x (el_ids n k') -> In (if ekind_beq k k' then cond x else x) (el_ids n6 k')).
+  { intros k' x Hx. pose proof (Kel k' x Hx) as H. destruct (ekind_beq k k') eqn:Ek; [|exact H].
+    apply ekind_beq_eq in Ek. subst k'. rewrite (Hcond x Hx). exact H. }
+  split.
+  - split.
+    + intros m Hm. rewrite Hmeas in Hm. apply in_map_iff in Hm. destruct Hm as [m0 [H1 H2]]. subst m.
+      destruct (tname_eqb (mty m0) (TEl k) && zin (mel m0) old); exact (Tm m0 H2).
+    + intros g Hg. rewrite Hgrp in Hg. apply in_map_iff in Hg. destruct Hg as [g0 [H1 H2]]. subst g.
+      destruct (tname_eqb (gty g0) (TEl k)); exact (Tg g0 H2).
+  - intros t x Rf. destruct Rf.
+    + change (In b (bus_ids n6)). rewrite Kbus. apply (R TBus). rewrite Hel in H.
+      destruct (ekind_beq k k0) eqn:Ek.
+      * apply ekind_beq_eq in Ek. subst k0. apply in_map_iff in H. destruct H as [r0 [H1 H2]]. subst r. simpl in H0.
+        eapply R_el; eauto.
+      * eapply R_el; eauto.
+    + change (In (sbus s) (bus_ids n6)). rewrite Kbus. rewrite Hsw in H. apply in_map_iff in H. destruct H as [s0 [H1 H2]]. subst s.
+      destruct (tname_eqb (sw_target (swt s0)) (TEl k) && zin (sel s0) old); exact (R TBus _ (R_swb n s0 H2)).
+    + rewrite Hsw in H. apply in_map_iff in H. destruct H as [s0 [H1 H2]]. subst s.
+      pose proof (R _ _ (R_swe n s0 H2)) as Hin.
+      destruct (tname_eqb (sw_target (swt s0)) (TEl k)) eqn:Et; cbn [andb].
+      * apply tname_eqb_eq in Et. destruct (zin (sel s0) old) eqn:Zo; cbn [swt sel]; rewrite Et in *.
+        -- pose proof (Kel k (sel s0) Hin) as H. rewrite ekind_beq_refl in H. exact H.
+        -- pose proof (Kref k (sel s0) Hin) as H. rewrite ekind_beq_refl in H. unfold cond in H. rewrite Zo in H. exact H.
+      * assert (Hgen : forall k1, sw_target (swt s0) = TEl k1 -> In (sel s0) (el_ids n6 k1)).
+        { intros k1 Es. rewrite Es in Hin, Et. pose proof (Kel k1 (sel s0) Hin) as H. destruct (ekind_beq k k1) eqn:Ek; [|exact H].
+          apply ekind_beq_eq in Ek. subst k1. simpl in Et. rewrite ekind_beq_refl in Et. discriminate. }
+        destruct (swt s0); cbn [sw_target] in *.
+        -- change (In (sel s0) (bus_ids n6)). rewrite Kbus. exact Hin.
+        -- apply (Hgen Line). reflexivity.
+        -- apply (Hgen Trafo). reflexivity.
+        -- apply (Hgen Trafo3w). reflexivity.
+    + rewrite Hmeas in H. apply in_map_iff in H. destruct H as [m0 [H1 H2]]. subst m.
+      pose proof (R _ _ (R_meas n m0 H2)) as Hin. pose proof (Tm m0 H2) as Hty.
+      destruct (tname_eqb (mty m0) (TEl k)) eqn:Et; cbn [andb].
+      * apply tname_eqb_eq in Et. destruct (zin (mel m0) old) eqn:Zo; cbn [mty mel]; rewrite Et in *.
+        -- pose proof (Kel k (mel m0) Hin) as H. rewrite ekind_beq_refl in H. exact H.
+        -- pose proof (Kref k (mel m0) Hin) as H. rewrite ekind_beq_refl in H. unfold cond in H. rewrite Zo in H. exact H.
+      * destruct (mty m0) as [| | | | |k1] eqn:Em; simpl in Hty; try discriminate.
+        -- change (In (mel m0) (bus_ids n6)). rewrite Kbus. exact Hin.
+        -- pose proof (Kel k1 (mel m0) Hin) as H. destruct (ekind_beq k k1) eqn:Ek; [|exact H].
+           apply ekind_beq_eq in Ek. subst k1. simpl in Et. rewrite ekind_beq_refl in Et. discriminate.
+    + change (In b (bus_ids n6)). rewrite Kbus. rewrite Hmeas in H. apply in_map_iff in H. destruct H as [m0 [H1 H2]]. subst m.
+      destruct (tname_eqb (mty m0) (TEl k) && zin (mel m0) old); exact (R TBus _ (R_side n m0 b H2 H0)).
+    + assert (Hc : exists c0, In c0 (pcost n ++ wcost n) /\ c = fixc c0).
+      { rewrite Hpc, Hwc, <- map_app in H. apply in_map_iff in H. destruct H as [c0 [H1 H2]]. exists c0. split; [exact H2 | symmetry; exact H1]. }
+      destruct Hc as [c0 [Hc0 Ec]]. subst c. pose proof (R _ _ (R_cost n c0 Hc0)) as Hin. simpl in Hin.
+      change (In (cel (fixc c0)) (el_ids n6 (cet (fixc c0)))). unfold fixc.
+      destruct (ekind_beq (cet c0) k) eqn:Ek; cbn [andb].
+      * apply ekind_beq_eq in Ek. destruct (zin (cel c0) old) eqn:Zo; cbn [cet cel]; rewrite Ek in *.
+        -- pose proof (Kel k (cel c0) Hin) as H1. rewrite ekind_beq_refl in H1. exact H1.
+        -- pose proof (Kref k (cel c0) Hin) as H1. rewrite ekind_beq_refl in H1. unfold cond in H1. rewrite Zo in H1. exact H1.
+      * pose proof (Kel (cet c0) (cel c0) Hin) as H1. destruct (ekind_beq k (cet c0)) eqn:Ek2; [|exact H1].
+        apply ekind_beq_eq in Ek2. subst k. rewrite ekind_beq_refl in Ek. discriminate.
+    + rewrite Hgrp in H. apply in_map_iff in H. destruct H as [g0 [H1 H2]]. subst g.
+      pose proof (Tg g0 H2) as Hty.
+      destruct (tname_eqb (gty g0) (TEl k)) eqn:Et.
+      * apply tname_eqb_eq in Et. cbn [gty gmem] in *. apply in_map_iff in H0. destruct H0 as [x0 [Hx1 Hx2]]. subst x.
+        pose proof (R _ _ (R_grp n g0 x0 H2 Hx2)) as Hin. rewrite Et in *.
+        pose proof (Kref k x0 Hin) as H. rewrite ekind_beq_refl in H. exact H.
+      * pose proof (R _ _ (R_grp n g0 x H2 H0)) as Hin. destruct (gty g0) as [| | | | |k1] eqn:Eg; simpl in Hty; try discriminate.
+        -- change (In x (bus_ids n6)). rewrite Kbus. exact Hin.
+        -- change (In x (map sid (sw n6))). rewrite Ksid. exact Hin.
+        -- pose proof (Kel k1 x Hin) as H. destruct (ekind_beq k k1) eqn:Ek; [|exact H].
+           apply ekind_beq_eq in Ek. subst k1. simpl in Et. rewrite ekind_beq_refl in Et. discriminate.
+    + rewrite Hct in H. pose proof (R _ _ (R_ctrl n c x H H0)) as Hin. simpl in Hin.
+      change (In x (el_ids n6 (ctty c))). pose proof (Kel (ctty c) x Hin) as H1.
+      destruct (ekind_beq k (ctty c)) eqn:Ek; [|exact H1]. apply ekind_beq_eq in Ek.
+      rewrite (G22_reindex_ctrl n k lk c x G H (eq_sym Ek) H0) in H1. exact H1.
+    + change (In x (bus_ids n6)). rewrite Kbus. rewrite Hrb in H. apply (R TBus), R_rbus, H.
+    + change (In x (el_ids n6 k0)). rewrite Hres in H. destruct (ekind_beq k k0) eqn:Ek.
+      * apply ekind_beq_eq in Ek. subst k0. apply in_map_iff in H. destruct H as [x0 [H1 H2]]. subst x.
+        pose proof (R _ _ (R_res n k x0 H2)) as Hin. pose proof (Kref k x0 Hin) as H. rewrite ekind_beq_refl in H. exact H.
+      * pose proof (R _ _ (R_res n k0 x H)) as Hin. pose proof (Kel k0 x Hin) as H1. rewrite Ek in H1. exact H1.
+Qed.
+
 (* the repaired functions keep the invariant on the inputs that refute the old ones *)
 Lemma repaired_on_witnesses :
   (exists n', reindex_elements w_t3 (TEl Trafo3w) [(0, 5)] = Ok n' /\ inv n' = true) /\
@@ -553,6 +703,7 @@ Proof.
   - eapply inv_step_create_ctrl_partial; eauto.
   - eapply inv_step_drop_lines; eauto.
   - eapply inv_step_drop_trafos; eauto.
+  - destruct t; try discriminate. eapply inv_step_reindex_elements; eauto.
 Qed.
 Lemma inv_reachable ops : forall n, Inv n -> guarded n ops = true -> Inv (run_ops n ops).
 Proof.
@@ -569,7 +720,8 @@ Proof. intros G. apply inv_iff, inv_reachable; [apply inv_init | exact G]. Qed.
 Definition ex_ops : list op :=
   [OCreateBus 3; OCreateBus 7; OCreateBus 9; OCreateEl Line 4 [3; 7]; OCreateEl Line 2 [7; 9]; OCreateEl Load 1 [9];
    OCreateSwitch 5 3 SL 4; OCreateSwitch 6 3 SB 7; OCreateMeas 0 1%nat (TEl Line) 4 (SideBus 3); OCreateCost true 0 Load 1;
-   OCreateGroup 2 (TEl Line) [4; 2]; OCreateGroup 3 TSwitch [5]; OCreateCtrl Load [1] false; ODropLines [4]].
+   OCreateGroup 2 (TEl Line) [4; 2]; OCreateGroup 3 TSwitch [5]; OCreateCtrl Load [1] false;
+   OReindexElements (TEl Line) [(4, 11)]; ODropLines [11]].
 Lemma reachable_nonvacuous :
   guarded empty_net ex_ops = true /\ el_ids (run_ops empty_net ex_ops) Line = [2] /\ sw (run_ops empty_net ex_ops) <> [] /\
   map gid (grp (run_ops empty_net ex_ops)) = [2].
